@@ -417,6 +417,9 @@ class Source:
     def __init__(self, root, rel):
         self.rel = rel
         self.path = os.path.join(root, rel)
+        if rel.startswith("@verif/"):
+            # a file of the verification framework itself (e.g. the Kani reference functions), not of /repo
+            self.path = os.path.join(os.path.dirname(os.path.dirname(os.path.abspath(__file__))), rel[len("@verif/"):])
         try:
             self.text = open(self.path).read()
         except OSError as e:
